@@ -90,6 +90,9 @@ func runC17(rc *RunCtx) {
 		// swap-to-trusted; finally the payment succeeds
 		ww.W.LN.ForceNextPay = "pending"
 		c17SigAllCrossMint(ww, 32)
+		if len(ww.Tokens) == 0 {
+			return
+		}
 		t := ww.Tokens[len(ww.Tokens)-1]
 		ww.op("w.receive p2pk sigall=true crossmint=false")
 		ww.W.WalletOp(t.To, "recv2", nil, func(wl *wallet.Wallet) {
